@@ -322,8 +322,14 @@ def run(ctx):
         else:
             g_ = ifs_[-1]
             ie_ = [x for x in H.walk(g_["cond"]) if H.kind(x) == "MethodCall" and x["name"] == "is_empty"]
-            trimmed = all(any(H.kind(y) == "MethodCall" and y["name"] in ("trim", "trim_start", "trim_end", "trim_ascii") for y in H.walk(x["recv"])) or
-                          any(H.kind(y) == "MethodCall" and y["name"] in ("all",) for y in H.walk(x["recv"])) for x in ie_)
+            lets_ = {s_["pat"]["name"]: s_["init"] for s_ in H.walk(hm["body"]) if isinstance(s_, dict) and s_.get("k") == "Let" and H.kind(s_.get("pat")) == "Bind" and s_.get("init") is not None}
+
+            def trims(e_, depth=0):
+                if any(H.kind(y) == "MethodCall" and y["name"] in ("trim", "trim_start", "trim_end", "trim_ascii", "split_whitespace", "all") for y in H.walk(e_)):
+                    return True
+                l_ = H.path_local(H.strip(e_))
+                return depth < 4 and l_ in lets_ and trims(lets_[l_], depth + 1)
+            trimmed = all(trims(x["recv"]) for x in ie_)
             ctx.inst("C19.R3", "main#blank-stdin-is-no-input", True if trimmed else False, "the stdin document is handed to the JSON parser unless it is empty %s" % ("after trimming" if trimmed else "as raw bytes: a lone newline on stdin is a JSON error and the run fails"), H.loc(g_))
     if loops:
         lp = loops[0]
